@@ -157,7 +157,9 @@ class ObjectSpec:
                     if ins.name is not None:
                         types[ins.name] = tref
                     if ins.value is not None:
-                        emit(lit_piece(ex, V, tref, ins.value, st["mode"], ins))
+                        # hard-coded: never None; as an optional field still part of the optional tail of its chunk
+                        emit(lit_piece(ex, V, tref, ins.value, st["mode"], ins),
+                             z3.Not(st["missing"]) if ins.optional else None)
                         continue
                     fv = self.f[ins.name]
                     isnone, v = (fv.isnone, fv.val) if isinstance(fv, MaybeV) else (z3.BoolVal(False), fv)
@@ -344,7 +346,8 @@ class ParseSpec:
                     if ins.optional:
                         present = V.REM(st["s"]) > 0
                         v, ns = self.read_value(tref, st["s"], ins, lenvals)
-                        self.fields[ins.name] = MaybeV(simp(z3.Not(present)), v)
+                        self.fields[ins.name] = MaybeV(simp(z3.Not(present)), v) if ins.value is None \
+                            else self.lit_of(tref, ins.value)         # the object always carries the literal
                         st["s"] = z3.If(present, ns, st["s"])
                         continue
                     v, ns = self.read_value(tref, st["s"], ins, lenvals)
